@@ -174,6 +174,28 @@ theorem half_pipeline_opaque (F : FloatOps) (src : Img8) (w h : Nat) (hw : 0 < s
     such row (F220 repaired). -/
 theorem full_block_bottom_shape : fullBlockBottom = .topIfMissing := by decide
 
+/-- **F320 repaired**: `HalfBlockImage.Resize` as regenerated reads the lower pixel only when the image has that row and
+    leaves it transparent otherwise — so the renderer never calls `At` outside the image's bounds (where `image.Gray`
+    answers opaque black, `image.Paletted` its first palette entry, `image.YCbCr` a dark green) — and on this model's
+    images, whose `at` is the zero colour outside, the cell list is the `halfCells` of the theorems above and below. -/
+theorem half_block_bottom_shape :
+    halfBlockBottom = .zeroIfMissing ∧ ∀ img, halfCellsGen img = halfCells img := by
+  have h : halfBlockBottom = .zeroIfMissing := by decide
+  refine ⟨h, fun img => ?_⟩
+  unfold halfCellsGen halfCells blockCells blockCellsWith
+  rw [h]
+  apply List.map_congr_left
+  intro i _
+  have : lowerPx .zeroIfMissing img (i - i / img.w * img.w) (2 * (i / img.w)) = lowerPx .read img (i - i / img.w * img.w) (2 * (i / img.w)) := by
+    show (if 2 * (i / img.w) + 1 < img.h then img.at (i - i / img.w * img.w) (2 * (i / img.w) + 1) else (⟨0, 0, 0, 0⟩ : C16)) =
+      img.at (i - i / img.w * img.w) (2 * (i / img.w) + 1)
+    split
+    · rfl
+    · rename_i hlt
+      unfold Img.at
+      rw [if_neg (fun hh => hlt hh.2)]
+  simp only [this]
+
 /-- **Full-block rendering of an opaque image, the whole pipeline**: the cell at column `x`, row `y` is a space whose
     background is exactly the channel-wise mean of the two source pixels `(nnIndex x, nnIndex (2y))` and
     `(nnIndex x, nnIndex (2y+1))`; in the last row of an odd pixel height, where the cell covers one pixel, exactly
